@@ -1209,8 +1209,12 @@ func do_JUMP_ABSOLUTE(vm *Vm, target int32) error {
 // iterator indicates it is exhausted TOS is popped, and the bytecode
 // counter is incremented by delta.
 func do_FOR_ITER(vm *Vm, delta int32) error {
-	r, finished := py.Next(vm.TOP())
-	if finished != nil {
+	r, err := py.Next(vm.TOP())
+	if err != nil {
+		// Only StopIteration means the iterator is exhausted
+		if !py.IsException(py.StopIteration, err) {
+			return err
+		}
 		vm.DROP()
 		vm.frame.Lasti += delta
 	} else {
